@@ -77,19 +77,23 @@ def merge(g, a, b):
     ta = type(a)
     if ta is type(b):
         if ta is St:
-            if a.ty == b.ty or a.ty is None or b.ty is None or True:
+            if a.ty == b.ty or a.ty is None or b.ty is None:
                 fa, fb = a.f, b.f
+                ty = a.ty if a.ty is not None else b.ty
                 if fa.keys() == fb.keys():
-                    return St(a.ty if a.ty == b.ty else (a.ty or b.ty), {k: merge(g, fa[k], fb[k]) for k in fa})
+                    return St(ty, {k: merge(g, fa[k], fb[k]) for k in fa})
                 ks = list(fa.keys()) + [k for k in fb if k not in fa]
-                return St(a.ty, {k: merge(g, fa.get(k), fb.get(k)) for k in ks})
+                return St(ty, {k: merge(g, fa.get(k), fb.get(k)) for k in ks})
+            return Mix([(g, a), (Not(g), b)])
         elif ta is En:
+            if a.ty is not None and b.ty is not None and a.ty != b.ty: return Mix([(g, a), (Not(g), b)])
             va, vb = a.vars, b.vars
             vs = {}
             for k in va:
                 vs[k] = merge(g, va[k], vb.get(k))
             for k in vb:
                 if k not in va: vs[k] = vb[k]
+            if a.ty is not None and b.ty is not None and a.ty != b.ty: return Mix([(g, a), (Not(g), b)])
             return En(a.ty or b.ty, Ite(g, a.disc, b.disc), vs)
         elif ta is Ref:
             if len(a.tg) == 1 and len(b.tg) == 1 and a.tg[0][1] is b.tg[0][1] and a.tg[0][2] == b.tg[0][2] and a.tg[0][0] is TRUE and b.tg[0][0] is TRUE:
